@@ -113,11 +113,11 @@ def gen_data(rng, kinds):
 
 def gen_case(rng):
     fn = str(rng.choice(['dist', 'compare']))
-    main = ['nd', 'list', 'series', 'series_idx', 'nd', 'series', 'df1', 'df2', 'empty', 'df0']
+    main = ['nd', 'list', 'series', 'series_idx', 'nd', 'series', 'series', 'list', 'series_idx', 'nd', 'df1', 'df2', 'empty', 'df0']
     c = {'fn': fn, 'title': None if rng.random() < 0.6 else ('' if rng.random() < 0.2 else 'T')}
     c['real'] = gen_data(rng, main)
     if fn == 'compare':
-        c['synth'] = gen_data(rng, ['nd', 'list', 'series', 'series_idx', 'nd', 'series', 'df1', 'empty'])
+        c['synth'] = gen_data(rng, ['nd', 'list', 'series', 'series_idx', 'nd', 'series', 'list', 'series', 'nd', 'df1', 'empty'])
     else:
         c['label'] = [None, '', 'L', 'Real'][int(rng.integers(0, 4))]
     return c
